@@ -88,9 +88,10 @@ def _judge_case(modname, desc, opts):
                     viol("%s/pos/%s" % (prop_sig, e.kind.split(":")[0]),
                          "diagnostic for %s reports %s, the offending token is at %s" % (e.kind, d.pos, tuple(e.pos)))
             if (opts.get("check_atoms") or case.get("check_atoms")) and e.atoms:
-                if not judge.atoms_in_order(d.msg, e.atoms):
+                ordered = e.kind in ("InvalidOpTypes", "InvalidEqOpTypes")     # C16 demands operator, lhs type, rhs type in order
+                if not judge.atoms_present(d.msg, e.atoms, ordered):
                     viol("%s/atoms/%s" % (prop_sig, e.kind.split(":")[0]),
-                         "message %r does not name %s in order" % (d.msg, e.atoms))
+                         "message %r does not name %s%s" % (d.msg, e.atoms, " in order" if ordered else ""))
             if opts.get("check_diag") or case.get("check_diag"):
                 for sig, what in diag_problems(d, e, r):
                     viol("%s/%s" % (prop_sig, sig), what)
